@@ -572,7 +572,10 @@ open Martian.Lexer (Bytes)
 /-- **formatGB round trip.**  For every `int64`-sized number of MB the text `formatGB` prints is
 exactly one numeric token (NUM_INT for a whole number of GB, NUM_FLOAT otherwise), also when a
 terminator byte (`,` …) and anything else follow, and reading the token back with
-`roundUpTo(·, 1024)` (exact decimal value, rounded away from zero) gives the same number of MB. -/
+`roundUpTo(·, 1024)` (exact decimal value, rounded away from zero) gives the same number of MB.
+This is a statement about the DIGITS `formatGB` prints (enough of them for the exact value to round
+back), not about the real parser, which rounds the literal to float32 first: that reading agrees
+below 256 GB only (`readGB32_inverts_formatGB`, F29), which is why `wfMB` is the smaller range. -/
 theorem formatGB_roundtrip (mb : Int) (hb : mb.natAbs < 2 ^ 63) :
     readGB (fmtGB mb) = some mb ∧ readGBTok (tokGB mb) = some mb ∧
     (∀ c r, isTerm c = true → Martian.Lexer.numTok false (fmtGB mb ++ c :: r) =
@@ -619,12 +622,15 @@ theorem formatGB_float32_witness :
     readGB [0x30, 0x2E, 0x35, 0x30, 0x30, 0x30, 0x30, 0x30, 0x30, 0x30, 0x30, 0x31] = some 513 := by
   decide +kernel
 
-/-- **Resources.**  For every well-formed `Resources` (values of `int64` size, `special` valid
-UTF-8, `threads` a NUM_FLOAT in the float32 range or a canonical NUM_INT; any subset of the five
+/-- **Resources.**  For every well-formed `Resources` (`mem_gb` / `vmem_gb` below 256 GB in
+magnitude, `special` valid UTF-8, `threads` a NUM_FLOAT in the float32 range or a canonical NUM_INT; any subset of the five
 entries, including none): the printed block, followed by any text, lexes as `) using (` + its
 entries and then the tokens of that text; and `resources` reads these tokens, closed by `)`, back
 as the same `Resources`, leaving what follows.  (The printed order is the canonical one, so the
-result is identical, not just equal up to a normal form; printing it again gives the same text.) -/
+result is identical, not just equal up to a normal form; printing it again gives the same text.)
+Domain: mem_gb / vmem_gb below 256 GB in magnitude (`wfMB`): the range where the model's exact reading and the
+real parser's float32 reading agree (`readGB32_inverts_formatGB`); above it the real formatter is not a
+fixed point (F29, `formatGB_float32_witness`). -/
 theorem parse_format_resources (r : Res) (hw : wfRes r = true) :
     (∀ rest, lexAll (fmtRes r ++ rest) = (lexAll rest).map (toksRes r ++ ·)) ∧
     toksRes r = tRP :: .id sUsing :: tLP :: toksResBody r ∧
@@ -659,7 +665,10 @@ theorem parse_format_stage_tail (res : Option Res) (ret : Option (List Bytes))
   ⟨fun rest => lexOK_fmtTail res ret hw1 hw2 rest trivial, pTail_toks res ret hw1⟩
 
 /-- **A whole declaration**: the text of a stage without parameters carrying all three clauses
-reads back as the same stage; hence formatting is idempotent on it. -/
+reads back as the same stage; hence formatting is idempotent on it.
+Domain: mem_gb / vmem_gb below 256 GB in magnitude (`wfMB`): the range where the model's exact reading and the
+real parser's float32 reading agree (`readGB32_inverts_formatGB`); above it the real formatter is not a
+fixed point (F29, `formatGB_float32_witness`). -/
 theorem parse_format_stage0 (s : Stage0) (hw : wfStage0 s = true) :
     parseStage0 (fmtStage0 s) = some s ∧
     (∀ s', parseStage0 (fmtStage0 s) = some s' → fmtStage0 s' = fmtStage0 s) := by
@@ -902,13 +911,23 @@ out, chunk-in and chunk-out parameters of every shape `parse_format_params` cove
 texts of any length — hence whichever way the 35/25 cut-offs of `getWidths` and the 30/20 quirk of
 `Stage.format` fall —, every language, a command with arguments, split or not, any `Resources`
 incl. negative and fractional `mem_gb`, any retain list) the reader accepts the printed text and
-returns exactly the stage. -/
+returns exactly the stage.
+Domain: mem_gb / vmem_gb below 256 GB in magnitude (`wfMB`): the range where the model's exact reading and the
+real parser's float32 reading agree (`readGB32_inverts_formatGB`); above it the real formatter is not a
+fixed point (F29, `formatGB_float32_witness`).  The same statement for the
+reader with the REAL float32 reading: `parse32_format_stage` below. -/
 theorem parse_format_stage (s : Stage) (hw : wfStage s = true) : parseStage (fmtStage s) = some s :=
   parseStage_fmtStage s hw
 
-/-- **Idempotence.**  If a text reads as a well-formed stage, the formatter's output for it reads
-as the same stage, and whatever the output reads as prints to the same output again: formatting
-the output changes nothing. -/
+/-- **Idempotence (AST side).**  This is `parse_format_stage` plus the fixed point: for a well-formed
+stage `s` the printed text reads as `s`, and whatever the printed text reads as prints to the same
+text again.  The hypothesis `_h` (some text `t` reads as `s`) is NOT used — it only records where `s`
+comes from; the statement is about `wfStage s`.  The TEXT-side statement (for every source text the
+real parser accepts, under explicit exception hypotheses, with the real float32 reading) is
+`format_preserves_accepted_stage32_partial`.
+Domain: mem_gb / vmem_gb below 256 GB in magnitude (`wfMB`): the range where the model's exact reading and the
+real parser's float32 reading agree (`readGB32_inverts_formatGB`); above it the real formatter is not a
+fixed point (F29, `formatGB_float32_witness`). -/
 theorem format_stage_idem (t : Bytes) (s : Stage) (_h : parseStage t = some s) (hw : wfStage s = true) :
     parseStage (fmtStage s) = some s ∧
     (∀ s', parseStage (fmtStage s) = some s' → fmtStage s' = fmtStage s) := by
@@ -917,6 +936,35 @@ theorem format_stage_idem (t : Bytes) (s : Stage) (_h : parseStage t = some s) (
   rw [parseStage_fmtStage s hw] at h
   injection h with h
   rw [h]
+
+/-- the resource conjunct of `wfStage` is `stageMB32Valid` (`wfMB` is the 256 GB bound) -/
+theorem wfStage_below_256GB (s : Stage) (hw : wfStage s = true) : stageMB32Valid s = true :=
+  stageMB32Valid_of_wf s hw
+
+/-- **Round trip, whole stage declarations, with the REAL reading of `mem_gb` / `vmem_gb`.**  The same
+as `parse_format_stage` for the reader that rounds the literal to the nearest float32 first, as the
+real parser does (`parseStage32`, model `readGB32Tok`): on the domain `wfStage` the two readers
+return the same stage. -/
+theorem parse32_format_stage (s : Stage) (hw : wfStage s = true) : parseStage32 (fmtStage s) = some s :=
+  parseStage32_fmtStage s hw (stageMB32Valid_of_wf s hw)
+
+/-- **Negative witness, the 256 GB bound of `wfStage` (F29).**  The stage `S` with `mem_gb` =
+262188 MB (256 GB + 44 MB, the value of `formatGB_float32_witness`) is NOT `wfStage`, and only
+because of that value (with 262143 MB, the largest value of the domain, it is): the exact reading
+of the printed text is 262188 MB, the real parser's float32 reading is 262187 MB — the model reader
+`parseStage` accepts the printed text as the same stage, the real-reader model `parseStage32` reads
+a different stage, whose printed form differs (the real formatter is not a fixed point there). -/
+theorem stage_above_256GB_not_wf :
+    let big : Stage := ⟨[0x53], [], [], .py, [0x78], [], false, [], [],
+      some ⟨some 262188, none, none, none, none⟩, none⟩
+    let top : Stage := { big with res := some ⟨some 262143, none, none, some (-262143), none⟩ }
+    wfStage big = false ∧ stageMB32Valid big = false ∧ stageMBValid big = true ∧
+    wfStage top = true ∧ parseStage32 (fmtStage top) = some top ∧
+    readGB (fmtGB 262188) = some 262188 ∧ readGB32 (fmtGB 262188) = some 262187 ∧
+    parseStage (fmtStage big) = some big ∧
+    parseStage32 (fmtStage big) = some { big with res := some ⟨some 262187, none, none, none, none⟩ } ∧
+    (parseStage32 (fmtStage big)).map fmtStage ≠ some (fmtStage big) := by
+  set_option maxRecDepth 100000 in decide +kernel
 
 /-- **Lexing layer.**  The printed declaration followed by ANY text lexes as its token sequence
 followed by the tokens of that text (a file is a sequence of declarations). -/
@@ -1217,13 +1265,30 @@ open Martian.Lexer (Bytes)
 stages and pipelines, with or without a top-level call; at least a declaration or the call) the
 reader accepts the printed text and returns the file up to the documented normalisations
 (`normFile`: the calls of every pipeline in `topoSort` order, calls and `return` in normal form;
-everything else exactly). -/
+everything else exactly).
+Domain: mem_gb / vmem_gb below 256 GB in magnitude (`wfMB`): the range where the model's exact reading and the
+real parser's float32 reading agree (`readGB32_inverts_formatGB`); above it the real formatter is not a
+fixed point (F29, `formatGB_float32_witness`).  The same statement for the
+reader with the REAL float32 reading: `parse32_format_file` below. -/
 theorem parse_format_file (f : File) (hw : wfFile f = true) : parseFile (fmtFile f) = some (normFile f) :=
   parseFile_fmtFile f hw
 
-/-- **Idempotent, whole file.**  Printing what was read gives the same text. -/
+/-- **Idempotent, whole file.**  Printing what was read gives the same text.
+Domain: mem_gb / vmem_gb below 256 GB in magnitude (`wfMB`): the range where the model's exact reading and the
+real parser's float32 reading agree (`readGB32_inverts_formatGB`); above it the real formatter is not a
+fixed point (F29, `formatGB_float32_witness`). -/
 theorem format_file_idem (f : File) (hw : wfFile f = true) : fmtFile (normFile f) = fmtFile f :=
   fmtFile_norm f hw
+
+/-- every stage of a well-formed file has `mem_gb` / `vmem_gb` below 256 GB in magnitude -/
+theorem wfFile_below_256GB (f : File) (hw : wfFile f = true) : fileMB32Valid f = true :=
+  fileMB32Valid_of_wf f hw
+
+/-- **Round trip, whole file, with the REAL reading of `mem_gb` / `vmem_gb`** (`parseFile32`: the
+literal rounded to the nearest float32 first, as the real parser does): on the domain `wfFile` it
+returns the same file as the exact reader of `parse_format_file`. -/
+theorem parse32_format_file (f : File) (hw : wfFile f = true) : parseFile32 (fmtFile f) = some (normFile f) :=
+  parseFile32_fmtFile f hw (fileMB32Valid_of_wf f hw)
 
 /-- the normal form is well formed and a fixed point -/
 theorem normFile_stable (f : File) (hw : wfFile f = true) :
@@ -1243,7 +1308,7 @@ consists of include lines, well-formed declarations `ds` of the four kinds in AN
 the printer's spelling, pipelines with their calls in `topoSort` order) and optionally the call,
 with any white space `w k` after piece number `k`, reads as the normal form of the file which
 `NewAst` builds (`distribute`: all filetypes, all structs, all callables, each group in source
-order). -/
+order).  Domain: `mem_gb` / `vmem_gb` of every stage below 256 GB in magnitude (`wfMB`, F29). -/
 theorem parse_source_any_order (w : Nat → Bytes) (hws : ∀ k, (w k).all isSp = true)
     (incs : List Bytes) (ds : List Decl) (call : Option Call2) (hw : wfSource incs ds call = true) :
     parseFile (fmtSource false w incs ds call) = some (normFile (distribute incs ds call)) :=
@@ -1256,7 +1321,10 @@ file with every pipeline's calls where they stand, calls in normal form; (2) the
 output for it, `fmtFile g`, is the printed form of the distributed file; (3) that output reads as
 the normal form of the distributed file — the same includes, filetypes, structs and stages, the
 same pipelines up to the order of their calls (`normPipeline`), the same call; and (4) formatting
-again changes nothing. -/
+again changes nothing.
+Domain (`wfSource`: every declaration well formed): mem_gb / vmem_gb below 256 GB in magnitude (`wfMB`): the range where the model's exact reading and the
+real parser's float32 reading agree (`readGB32_inverts_formatGB`); above it the real formatter is not a
+fixed point (F29, `formatGB_float32_witness`). -/
 theorem format_preserves_program (w : Nat → Bytes) (hws : ∀ k, (w k).all isSp = true)
     (incs : List Bytes) (ds : List Decl) (call : Option Call2) (hw : wfSource incs ds call = true) :
     let g := distribute incs (ds.map readDecl) (call.map normCall2)
@@ -1554,7 +1622,11 @@ harness/c09decl.go, c09stage.go, key `C09:accepted-decl-not-wf`):
 
 * F6b — `declStrsValid` / `paramsStrsValid` / `stageStrsValid`: a help text, out name, `special`
   value or src command written with an escape for an invalid UTF-8 byte (`"\xff"`);
-* F25 — `stageMBValid`: `mem_gb` / `vmem_gb` of 2^53 GB or more (`formatGB`'s `int64(gb*1024)`).
+* F29 — `stageMB32Valid` (= `wfMB` on both values): `mem_gb` / `vmem_gb` of 256 GB or more in
+  magnitude, where the real parser's float32 reading of what `formatGB` prints can differ from the
+  exact reading of the model.  This is the resource bound of `wfStage`, hence a hypothesis of the
+  theorems about BOTH readers.  F25 — `stageMBValid`: 2^53 GB or more (`formatGB`'s
+  `int64(gb*1024)`) — is subsumed (`stageMBValid_of_32`) and kept as a definition only.
 
 Model: `Martian.FormatDeclText`.  `threads`: the model reader keeps the token text, Go stores
 `roundUpTo(float32(text), 100)` and prints it with `%g`; strconv/fmt and `roundUpTo` are trusted:
@@ -1566,11 +1638,12 @@ parser's `Stage`.
 `mem_gb` / `vmem_gb` (F29, stated, not hidden): `parseStage` reads them by `readGBTok`, the EXACT
 decimal value of the literal rounded up to 1/1024; the real parser rounds the literal to the nearest
 float32 first (`readGB32Tok`; `0.5000000001` is 512 MB for the real parser, 513 MB exactly).  BOTH
-readers are covered: `parseStage` (`…_stage_partial`, hypothesis `stageMBValid`: below 2^53 GB, F25)
-and `parseStage32` = the same reader with `readGB32Tok` (`…_stage32_partial`, hypothesis
-`stageMB32Valid`: below 256 GB in magnitude — `readGB32_inverts_formatGB`, 262 144 values by kernel
-evaluation; from 256 GB + 44 MB on the real formatter's output does NOT read back as the same
-value: `accepted_stage_float32_resource`, finding F29).  The harness ties `readGB32` to the real
+readers are covered, under the SAME hypothesis `stageMB32Valid` (below 256 GB in magnitude, the
+domain where the two readings of a printed value agree — `readGB32_inverts_formatGB`, 262 144 values
+by kernel evaluation — and the domain of `wfStage`): `parseStage` (`…_stage_partial`) and
+`parseStage32` = the same reader with `readGB32Tok` (`…_stage32_partial`; this is the statement
+about the real code).  From 256 GB + 44 MB on the real formatter's output does NOT read back as the
+same value: `accepted_stage_float32_resource`, finding F29.  The harness ties `readGB32` to the real
 parser on every literal and every printed value it samples (streams `C09.readgb` / `C09.readgb32`,
 harness/c09res.go). -/
 section AcceptedDeclTexts
@@ -1619,13 +1692,15 @@ theorem parse_produces_stageRaw (src : Bytes) (s : Stage) (h : parseStage src = 
 (↦ `7`) and leaves every text in printed form alone -/
 theorem hok_instance : HOK hSample := hok_hSample
 
-/-- **The parser produces well-formed stages** — partial: `hs` is finding F6b, `hm` is finding
-F25 (`accepted_stage_huge_resource` below: `mem_gb = 9007199254740992` is accepted; the real
-`formatGB` prints `-9007199254740992` for it).  Everything else the parser can return is covered:
+/-- **The parser produces well-formed stages** — partial: `hs` is finding F6b, `hm` is F29's range
+(`mem_gb`, `vmem_gb` below 256 GB in magnitude: the resource bound of `wfStage`, the domain where the
+exact reading of this model reader is the reading of the real parser; `accepted_stage_float32_resource`
+below).  F25 is subsumed (`accepted_stage_huge_resource` below: `mem_gb = 9007199254740992` is
+accepted; the real `formatGB` prints `-9007199254740992` for it).  Everything else the parser can return is covered:
 `h` is any canonicaliser with `HOK h` (what is trusted about `roundUpTo`, `float32` and `%g`);
 without `h` the statement is false (`threads = 007` is accepted: `accepted_stage_threads_text`). -/
 theorem parse_produces_wf_stage_partial (h : Bytes → Bytes) (hh : HOK h) (src : Bytes) (s : Stage)
-    (hp : parseStageH h src = some s) (hs : stageStrsValid s = true) (hm : stageMBValid s = true) :
+    (hp : parseStageH h src = some s) (hs : stageStrsValid s = true) (hm : stageMB32Valid s = true) :
     wfStage s = true :=
   parseStageH_wf h hh src s hp hs hm
 
@@ -1662,19 +1737,24 @@ theorem format_preserves_accepted_params_partial (src : Bytes) (ps : List Param)
   refine ⟨h1, parseParams_fmt_accepted src ps h hs _ _ _ _, fun ps' h2 => ?_⟩
   rw [h1] at h2; injection h2 with h2; rw [h2]
 
-/-- **Formatting preserves every accepted `stage` text** — partial: `hs` = F6b, `hm` = F25; this is
-the reader with the EXACT reading of `mem_gb` / `vmem_gb` (section header; the real reading:
-`format_preserves_accepted_stage32_partial`).  For every
+/-- **Formatting preserves every accepted `stage` text** — partial: `hs` = F6b, `hm` = F29's range
+(below 256 GB in magnitude; F25 subsumed); this is
+the reader with the EXACT reading of `mem_gb` / `vmem_gb` (section header; the real reading, under
+the same hypotheses: `format_preserves_accepted_stage32_partial`).  For every
 source text the parser accepts (any spacing, comments between tokens, `split using (`, resource
 entries in any order, repeated, in either spelling, numerals in any spelling): the formatter's
 output is accepted, denotes the same stage, and whatever it is read as prints to the same text. -/
 theorem format_preserves_accepted_stage_partial (h : Bytes → Bytes) (hh : HOK h) (src : Bytes) (s : Stage)
-    (hp : parseStageH h src = some s) (hs : stageStrsValid s = true) (hm : stageMBValid s = true) :
+    (hp : parseStageH h src = some s) (hs : stageStrsValid s = true) (hm : stageMB32Valid s = true) :
     parseStageH h (fmtStage s) = some s ∧
     ∀ s', parseStageH h (fmtStage s) = some s' → fmtStage s' = fmtStage s :=
   parseStageH_fmtStage h hh src s hp hs hm
 
 /-! ### the same with `mem_gb` / `vmem_gb` as the REAL parser reads them (float32) -/
+
+/-- F29's range is inside F25's (256 GB < 2^53 GB) -/
+theorem stageMB32_implies (s : Stage) (hm : stageMB32Valid s = true) : stageMBValid s = true :=
+  stageMBValid_of_32 s hm
 
 /-- **The real reading inverts `formatGB` below 256 GB**: for `|mb| < 256·1024` the text `formatGB`
 prints, rounded to the nearest float32 and then up to 1/1024 (`readGB32` = `tryParseFloat32` +
@@ -1698,8 +1778,8 @@ theorem parse32_produces_stageRaw (src : Bytes) (s : Stage) (h : parseStage32 sr
   parseStage32_range src s h
 
 /-- **The real parser produces well-formed stages** — partial: `hs` = F6b; `hm` (`mem_gb`, `vmem_gb`
-below 256 GB in magnitude) is stronger than F25 needs and is what `format_preserves_accepted_stage32_partial`
-needs (F29). -/
+below 256 GB in magnitude) is the resource bound of `wfStage` (`wfMB`) and what
+`format_preserves_accepted_stage32_partial` needs (F29); F25 is subsumed (`stageMB32_implies`). -/
 theorem parse_produces_wf_stage32_partial (h : Bytes → Bytes) (hh : HOK h) (src : Bytes) (s : Stage)
     (hp : parseStage32H h src = some s) (hs : stageStrsValid s = true) (hm : stageMB32Valid s = true) :
     wfStage s = true :=
@@ -1753,7 +1833,7 @@ def sampleStageText : Bytes :=
   ascii "stage S ( in int a \"\\u0041\" , out float , src py \"x.py  -v\" ,# c\n ) split using ( in int c , ) using ( threads = 007 , memgb = 1e0 , volatile = strict , threads=0.50, vmem_gb = 0.50, special = \"a\\tb\" ,) retain ( a , )"
 
 example : (parseStageH hSample sampleStageText).map
-      (fun s => (stageStrsValid s, stageMBValid s, fmtStage s != sampleStageText, fmtStage s)) =
+      (fun s => (stageStrsValid s, stageMB32Valid s, fmtStage s != sampleStageText, fmtStage s)) =
     some (true, true, true, ascii
       "stage S(\n    in  int   a        \"A\",\n    out float,\n    src py    \"x.py -v\",\n) split (\n    in  int   c,\n) using (\n    mem_gb   = 1,\n    special  = \"a\\tb\",\n    threads  = 0.5,\n    vmem_gb  = 0.5,\n    volatile = strict,\n) retain (\n    a,\n)\n") := by
   set_option maxRecDepth 100000 in decide +kernel
@@ -1772,11 +1852,11 @@ theorem accepted_struct_invalid_utf8 :
   set_option maxRecDepth 100000 in decide +kernel
 
 /-- Negative witness F25 on an ACCEPTED stage text: `mem_gb = 9007199254740992` (2^53 GB) is
-accepted and stored as 2^63 MB (`stageMBValid` and `wfStage` fail); the real `formatGB` (`fmtGBgo`:
+accepted and stored as 2^63 MB (`stageMBValid`, `stageMB32Valid` and `wfStage` fail); the real `formatGB` (`fmtGBgo`:
 `int64` overflow) prints `-9007199254740992` for it, not what the model printer `fmtGB` prints. -/
 theorem accepted_stage_huge_resource :
     (match parseStageH hSample (ascii "stage S(src py \"x\",) using (mem_gb = 9007199254740992,)") with
-      | some s => !stageMBValid s && !wfStage s && stageStrsValid s &&
+      | some s => !stageMBValid s && !stageMB32Valid s && !wfStage s && stageStrsValid s &&
           ((s.res.bind (·.mem)) == some (2 ^ 63 : Int))
       | none => false) = true ∧
     fmtGBgo (2 ^ 63) ≠ fmtGB (2 ^ 63) := by
@@ -1805,12 +1885,14 @@ example :
   set_option maxRecDepth 100000 in decide +kernel
 
 /-- Negative witness F29 on an ACCEPTED stage text: `mem_gb = 256.04296875` (256 GB + 44 MB, a
-float32) is accepted by the real reader as 262188 MB (`stageMB32Valid` fails, `stageMBValid` and
-`wfStage` hold); the formatter prints `256.042`, which the real reader reads as 262187 MB — the
-output does not denote the same stage (the exact reader reads 262188 back). -/
+float32) is accepted by the real reader as 262188 MB (`stageMB32Valid` and hence `wfStage` fail —
+the domain of the round-trip theorems ends below 256 GB —, `stageMBValid`, F25's range, holds); the
+formatter prints `256.042`, which the real reader reads as 262187 MB — the output does not denote
+the same stage (the exact reader of the model reads 262188 back: above 256 GB the model reader is
+NOT the real parser, which is why `wfStage` excludes it). -/
 theorem accepted_stage_float32_resource :
     (match parseStage32 (ascii "stage S(src py \"x\",) using (mem_gb = 256.04296875,)") with
-      | some s => !stageMB32Valid s && stageMBValid s && wfStage s &&
+      | some s => !stageMB32Valid s && stageMBValid s && !wfStage s &&
           ((s.res.bind (·.mem)) == some (262188 : Int)) &&
           fmtStage s == ascii "stage S(\n    src py \"x\",\n) using (\n    mem_gb = 256.042,\n)\n" &&
           ((parseStage32 (fmtStage s)).map (fun s' => s'.res.bind (·.mem)) == some (some (262187 : Int))) &&
@@ -2119,8 +2201,12 @@ the file):
   byte (`accepted_file_invalid_utf8_include`).
 * F26 `fileNoNegZero`: a float leaf `-0.0` in a binding value: printed `-0`, read back as the
   integer 0, printed `0` (`accepted_file_negative_zero_duplicate_modifier`).
-* F25 `fileMBValid`: `mem_gb` / `vmem_gb` of a stage of 2^53 GB or more: `formatGB`'s
-  `int64(gb*1024)` overflows (`accepted_file_huge_resource`).
+* F29 `fileMB32Valid`: `mem_gb` / `vmem_gb` of a stage of 256 GB or more in magnitude (`wfMB`): the
+  real parser rounds the literal to the nearest float32 first and can read what `formatGB` printed
+  one MB lower (`accepted_file_float32_resource`); below 256 GB the exact reading of the model and
+  the real reading agree (`readGB32_inverts_formatGB`).  This is the resource bound of `wfFile`.
+  It subsumes F25 `fileMBValid`: 2^53 GB or more, `formatGB`'s `int64(gb*1024)` overflows
+  (`accepted_file_huge_resource`).
 * F40 `fileModsDistinct`: the same modifier id twice in one `using` block of a call (the model's
   stable sort is `sort.Slice` only for distinct ids).
 * F34 `fileCallsDistinct`: two calls with the same id in one pipeline: the output is not a fixed
@@ -2128,10 +2214,11 @@ the file):
 
 Which reader of `mem_gb` / `vmem_gb`: `parseFile` (section WholeFile) reads the two values EXACTLY
 (`readGBTok`); the real parser rounds the literal to the nearest float32 first (F29).  BOTH are
-covered: `parseFileGH g h` (exact; `…_file_partial`, hypothesis `fileHyps`) and `parseFile32GH g h`
-= the same reader with `pStageR readGB32Tok` for every stage (`…_file32_partial`, hypothesis
-`fileHyps32`: `fileMB32Valid`, both values below 256 GB in magnitude, in place of `fileMBValid`;
-from 256 GB + 44 MB on the statement is FALSE for the real reading: `accepted_file_float32_resource`).
+covered, under the SAME hypotheses (`fileHyps32 f = fileHyps f`: the domain is where the two
+readings of a printed value agree): `parseFileGH g h` (exact; `…_file_partial`) and
+`parseFile32GH g h` = the same reader with `pStageR readGB32Tok` for every stage
+(`…_file32_partial`; this is the statement about the real code).  From 256 GB + 44 MB on the
+statement is FALSE for the real reading: `accepted_file_float32_resource`.
 
 Trusted (abstract, as in the parts): strconv's float64 print∘parse `g` with `GOK g`, and
 `h = Sprintf("%g", roundUpTo(float32(·), 100))` for `threads` with `HOK h`; `canonFile g h` applies
@@ -2181,15 +2268,15 @@ theorem parse32_produces_fileRaw (src : Bytes) (f : File) (h : parseFile32 src =
 /-- **The parser produces well-formed files** — partial.  The FULL statement is "for every source
 text `UncheckedParse` accepts, the file it returns satisfies `wfFile`" (then `parse_format_file`,
 `format_file_idem` apply to every accepted text).  It is FALSE for the code as it is; `hy` is the
-conjunction of exactly the recorded findings F6b, F26, F25, F40, F34 over all parts of the file
+conjunction of exactly the recorded findings F6b, F26, F29 (which subsumes F25), F40, F34 over all parts of the file
 (section header; negative witnesses below).  Everything else the parser can return is covered;
 `g`, `h`: what is trusted about strconv / `roundUpTo` (`GOK`, `HOK`). -/
 theorem parse_produces_wf_file_partial (g h : Bytes → Bytes) (hg : GOK g) (hh : HOK h) (src : Bytes) (f : File)
     (hp : parseFileGH g h src = some f) (hy : fileHyps f = true) : wfFile f = true :=
   parseFileGH_wf g h hg hh src f hp hy
 
-/-- **Formatting preserves every accepted file** — partial in the same sense (`hy` = F6b, F26, F25,
-F40, F34; without any conjunct the statement is FALSE for the code as it is).  For EVERY source
+/-- **Formatting preserves every accepted file** — partial in the same sense (`hy` = F6b, F26, F29
+(below 256 GB; F25 subsumed), F40, F34; without any conjunct the statement is FALSE for the code as it is).  For EVERY source
 text of a whole file the parser accepts — `@include` lines, the declarations of the four kinds in
 any order, the calls of every pipeline in any order, the top-level call, every token in any
 spelling, any white space, comments (dropped by the model reader: the statement is about the
@@ -2198,7 +2285,8 @@ the same file up to `normFile` (the calls of every pipeline in `topoSort` order,
 sorted `using` bindings, integral floats as ints — nothing else changes; the regrouping of the
 declarations into includes, filetypes, structs, callables, call is not visible in the AST); the
 output is a fixed point of the formatter; and formatting what was re-read is accepted again with
-the same result.  `mem_gb` / `vmem_gb` are read exactly here; the real reading:
+the same result.  `mem_gb` / `vmem_gb` are read exactly here (on the domain of `hy` that is the
+real reading of every printed value); the real reading of the source too:
 `format_preserves_accepted_file32_partial`. -/
 theorem format_preserves_accepted_file_partial (g h : Bytes → Bytes) (hg : GOK g) (hh : HOK h)
     (src : Bytes) (f : File) (hp : parseFileGH g h src = some f) (hy : fileHyps f = true) :
@@ -2206,8 +2294,14 @@ theorem format_preserves_accepted_file_partial (g h : Bytes → Bytes) (hg : GOK
       parseFileGH g h (fmtFile (normFile f)) = some (normFile f) :=
   format_accepted_file g h hg hh src f hp hy
 
-/-- `fileHyps32` is stronger than `fileHyps` (256 GB < 2^53 GB) -/
+/-- `fileHyps32` is `fileHyps` (both carry F29's bound, 256 GB, since the domain of `wfFile` ends there) -/
 theorem fileHyps32_implies (f : File) (hy : fileHyps32 f = true) : fileHyps f = true := fileHyps_of_32 f hy
+
+theorem fileHyps32_is_fileHyps (f : File) : fileHyps32 f = fileHyps f := fileHyps32_eq f
+
+/-- the hypotheses put every `mem_gb` / `vmem_gb` in F25's range too (256 GB < 2^53 GB) -/
+theorem fileHyps_implies_F25 (f : File) (hy : fileHyps f = true) : fileMBValid f = true :=
+  fileMBValid_of_hyps f hy
 
 /-- **The REAL parser produces well-formed files** — partial (`hy` = F6b, F26, F29 ⊇ F25, F40, F34):
 `parseFile32GH g h` reads `mem_gb` / `vmem_gb` of every stage through the float32 rounding of the
@@ -2262,7 +2356,7 @@ byte FF (`fileStrsValid` fails, every other conjunct holds, `wfFile` fails); the
 `@include "\ufffd"`, which reads back as the path U+FFFD — another file. -/
 theorem accepted_file_invalid_utf8_include :
     (parseFileGH gSample hSample (ascii "@include \"\\xff\"\nfiletype a;")).map (fun f =>
-      !fileStrsValid f && fileNoNegZero f && fileMBValid f && fileModsDistinct f && fileCallsDistinct f &&
+      !fileStrsValid f && fileNoNegZero f && fileMB32Valid f && fileModsDistinct f && fileCallsDistinct f &&
         !wfFile f && f.includes == [[0xFF]] && fmtFile f == ascii "@include \"\\ufffd\"\n\nfiletype a;\n" &&
         ((parseFileGH gSample hSample (fmtFile f)).map (·.includes) == some [[0xEF, 0xBF, 0xBD]])) = some true := by
   set_option maxRecDepth 100000 in decide +kernel
@@ -2273,7 +2367,7 @@ the output moves `C` again: the output is not a fixed point. -/
 theorem accepted_file_duplicate_call_ids :
     (parseFileGH gSample hSample (ascii
       "filetype a;\npipeline P(in int a, out int r,) { call X(a = B.o,) call Y as X() call C(c = X.o,) call B() return (r = C.o,) }")).map
-      (fun f => fileStrsValid f && fileNoNegZero f && fileMBValid f && fileModsDistinct f &&
+      (fun f => fileStrsValid f && fileNoNegZero f && fileMB32Valid f && fileModsDistinct f &&
         !fileCallsDistinct f && !wfFile f &&
         f.callables.map callableCalls == [([0x50], [[0x58], [0x59], [0x43], [0x42]])] &&
         (normFile f).callables.map callableCalls == [([0x50], [[0x59], [0x43], [0x42], [0x58]])] &&
@@ -2282,22 +2376,25 @@ theorem accepted_file_duplicate_call_ids :
   set_option maxRecDepth 1000000 in decide +kernel
 
 /-- Negative witness F25 in a FILE: `mem_gb = 9007199254740992` (2^53 GB) in a stage followed by a
-call.  Accepted, only `fileMBValid` fails (and `wfFile`); the real `formatGB` (`fmtGBgo`: `int64`
+call.  Accepted, only `fileMBValid` / `fileMB32Valid` fail (and `wfFile`); the real `formatGB` (`fmtGBgo`: `int64`
 overflow) prints `-9007199254740992` for it, not what the model printer prints. -/
 theorem accepted_file_huge_resource :
     (parseFileGH gSample hSample (ascii "stage S(src py \"x\",) using (mem_gb = 9007199254740992,)\ncall S()")).map
-      (fun f => fileStrsValid f && fileNoNegZero f && !fileMBValid f && fileModsDistinct f &&
+      (fun f => fileStrsValid f && fileNoNegZero f && !fileMBValid f && !fileMB32Valid f && fileModsDistinct f &&
         fileCallsDistinct f && !wfFile f && fileMems f == [some (2 ^ 63 : Int)]) = some true ∧
     Martian.FormatRes.fmtGBgo (2 ^ 63) ≠ Martian.FormatRes.fmtGB (2 ^ 63) := by
   set_option maxRecDepth 100000 in decide +kernel
 
 /-- Negative witness F29 in a FILE, real reading: `mem_gb = 256.04296875` (256 GB + 44 MB) is read
-as 262188 MB; `fileHyps` and `wfFile` hold, `fileHyps32` fails; the formatter prints `256.042`,
-which the real reader reads as 262187 MB — the output does not denote the same file (the exact
-reader reads 262188 back). -/
+as 262188 MB; only `fileMB32Valid` fails (F25's `fileMBValid` holds), so `fileHyps` = `fileHyps32`
+and `wfFile` fail — the domain of the round-trip theorems ends below 256 GB; the formatter prints
+`256.042`, which the real reader reads as 262187 MB — the output does not denote the same file (the
+exact reader of the model reads 262188 back: above 256 GB it is NOT the real parser). -/
 theorem accepted_file_float32_resource :
     (parseFile32GH gSample hSample (ascii "filetype a;\nstage S(src py \"x\",) using (mem_gb = 256.04296875,)")).map
-      (fun f => fileHyps f && !fileHyps32 f && wfFile f && fileMems f == [some 262188] &&
+      (fun f => !fileHyps f && !fileHyps32 f && !wfFile f && fileMBValid f && !fileMB32Valid f &&
+        fileStrsValid f && fileNoNegZero f && fileModsDistinct f && fileCallsDistinct f &&
+        fileMems f == [some 262188] &&
         ((parseFile32GH gSample hSample (fmtFile f)).map fileMems == some [some 262187]) &&
         ((parseFileGH gSample hSample (fmtFile f)).map fileMems == some [some 262188])) = some true := by
   set_option maxRecDepth 100000 in decide +kernel
@@ -2308,12 +2405,12 @@ theorem accepted_file_float32_resource :
 `fileRaw`, outside `wfFile`). -/
 theorem accepted_file_negative_zero_duplicate_modifier :
     (parseFileGH gSample hSample (ascii "filetype a;\ncall X(a = -0.0,)")).map
-      (fun f => !fileNoNegZero f && fileStrsValid f && fileMBValid f && fileModsDistinct f &&
+      (fun f => !fileNoNegZero f && fileStrsValid f && fileMB32Valid f && fileModsDistinct f &&
         fileCallsDistinct f && !wfFile f && fmtFile f == ascii "filetype a;\n\ncall X(\n    a = -0,\n)\n" &&
         ((parseFileGH gSample hSample (fmtFile f)).map fmtFile ==
           some (ascii "filetype a;\n\ncall X(\n    a = 0,\n)\n"))) = some true ∧
     (parseFileGH gSample hSample (ascii "filetype a;\ncall X() using (local = true, local = false,)")).map
-      (fun f => !fileModsDistinct f && fileStrsValid f && fileNoNegZero f && fileMBValid f &&
+      (fun f => !fileModsDistinct f && fileStrsValid f && fileNoNegZero f && fileMB32Valid f &&
         fileCallsDistinct f && !wfFile f && fileRaw f) = some true := by
   set_option maxRecDepth 100000 in decide +kernel
 
